@@ -591,17 +591,44 @@ var ruleScopeS7 = &Rule{
 		if create == nil {
 			return []Ob{{Key: "SCOPE/S7:slots", Verdict: UNDECIDED, Note: "slot unresolved: common.CreateScopeInfo"}}
 		}
+		// wrappers: module functions that pass one of their own parameters as the range of a CreateScopeInfo call
+		createWrappers := map[*ssa.Function]int{}
+		for _, g := range c.ModFns() {
+			for _, b := range g.Blocks {
+				for _, ins := range b.Instrs {
+					if call, ok := ins.(*ssa.Call); ok && call.Call.StaticCallee() == create && len(call.Call.Args) == 3 {
+						if p, ok := canon(call.Call.Args[2]).(*ssa.Parameter); ok {
+							for j, pp := range g.Params {
+								if pp == p {
+									createWrappers[g] = j
+								}
+							}
+						}
+					}
+				}
+			}
+		}
 		n := 0
 		for _, f := range c.ModFns() {
 			if f.Pkg == nil || f.Pkg.Pkg.Path() != analysisPkg || len(f.Params) < 2 {
 				continue
 			}
+			if _, isWrapper := createWrappers[f]; isWrapper {
+				continue
+			}
 			node := f.Params[1]
 			var cr *ssa.Call
+			locArg := 2
 			for _, b := range f.Blocks {
 				for _, ins := range b.Instrs {
-					if call, ok := ins.(*ssa.Call); ok && call.Call.StaticCallee() == create {
-						cr = call
+					call, ok := ins.(*ssa.Call)
+					if !ok {
+						continue
+					}
+					if call.Call.StaticCallee() == create {
+						cr, locArg = call, 2
+					} else if j, ok := createWrappers[call.Call.StaticCallee()]; ok && j < len(call.Call.Args) {
+						cr, locArg = call, j // a helper that creates (and registers) the scope with its own parameter as range
 					}
 				}
 			}
@@ -653,7 +680,7 @@ var ruleScopeS7 = &Rule{
 			key := "SCOPE/S7:" + f.Name()
 			// loc argument must be load of FieldAddr(node, Loc)
 			okLoc := false
-			if ld, ok := canon(cr.Call.Args[2]).(*ssa.UnOp); ok {
+			if ld, ok := canon(cr.Call.Args[locArg]).(*ssa.UnOp); ok {
 				if fa, ok := ld.X.(*ssa.FieldAddr); ok && canon(fa.X) == ssa.Value(node) && fieldOf(fa).Name() == "Loc" {
 					okLoc = true
 				}
@@ -662,7 +689,7 @@ var ruleScopeS7 = &Rule{
 				obs = append(obs, Ob{Key: key, Site: c.Pos(cr.Pos()), Verdict: OK})
 			} else {
 				obs = append(obs, Ob{Key: key, Site: c.Pos(cr.Pos()), Verdict: VIOLATION,
-					Note: f.Name() + " analyses an expression of the statement while the scope is still open, but the scope's range is " + describeValue(cr.Call.Args[2]) + ", not the statement's own Loc: positions in that expression fall outside the scope"})
+					Note: f.Name() + " analyses an expression of the statement while the scope is still open, but the scope's range is " + describeValue(cr.Call.Args[locArg]) + ", not the statement's own Loc: positions in that expression fall outside the scope"})
 			}
 		}
 		obs = append(obs, floor("SCOPE/S7-scope-range", "scopes kept open over a trailing expression", n, 1))
